@@ -1,22 +1,49 @@
-import Tahoe.Base.Netstring
+import Tahoe.Base.NetstringCanon
 import Tahoe.Base.Base32Lemmas
 import Tahoe.Base.Base62Lemmas
 import Tahoe.Base.Struct
-import Tahoe.Codec.LemmasUeb
-import Tahoe.Codec.LemmasRecords
+import Tahoe.Codec.LemmasUebCanon
+import Tahoe.Codec.LemmasHeaders
 /-!
 C38 — on-disk and wire encodings round-trip (property theorems; the models and helper lemmas live in
 `Tahoe/Base/*` and `Tahoe/Codec/*`).
 
-For every codec: `decode (encode v) = v` under the explicit range guard, and canonicity
-`decode x = v → encode v = x` for the decoder with the canonical checks.  The decoders of the code
-as it is (`Netstring.split pyLen`, `Base32.a2b 1`, `Base62.a2b`, `Ueb.unpack asIs`) are modelled too;
-for each leniency a `…_asis_counterexample` shows by evaluation the malformed input it accepts, next
-to the fact that the checked decoder rejects the same input.
+## Coverage of the statement
 
-Not proved here (tested by the monitor only): canonicity of the URI-extension-block decoder, i.e.
-`Ueb.unpack strict x = .ok d → (d.map packEntry).flatten = x` (the decoder is insensitive to key order,
-so the statement is about the entries in the order read).
+Statement (properties.jsonl): "Base32, base62, netstrings, URI extension blocks, lease records and share
+headers decode back to exactly the values that were encoded.  Malformed encodings are rejected rather
+than silently read as a different value."  Clause by clause, for the models (each model function is
+tied to the Python function by `harness/props/c38.py`, including exception kinds):
+
+| clause | theorems |
+|---|---|
+| base32 decodes back                    | `base32_decode_encode` |
+| base62 decodes back                    | `base62_decode_encode`, `base62_lengths` |
+| netstrings decode back                 | `netstring_decode_encode`, `netstring_split_concat`, `decimal_roundtrip_and_canonical` |
+| URI extension blocks decode back       | `ueb_decode_encode` (as packed: sorted), `ueb_decode_entries` (any order) |
+| lease records decode back              | `lease_immutable_decode_encode`, `lease_mutable_decode_encode`, `lease_v2_decode_encode` (hashed secrets; hash = injective hypothesis), `lease_renew_roundtrip`, `lease_renew_roundtrip_mutable` (values the code produces itself) |
+| share headers decode back              | `immutable_header_decode_encode`, `immutable_header_known_versions` (v1, v2), `mutable_header_decode_encode` (v1, v2), `mutable_header_fields` (data length / extra-lease offset / count read at fixed offsets) |
+| integer / fixed-width fields           | `be_decode_encode`, `be_canonical`, `struct_decode_encode`, `struct_canonical`; out of range: `be_out_of_range_wraps`, `lease_out_of_range_rejected` |
+| malformed base32 rejected              | `base32_exact` (decoder accepts exactly the image of the encoder), `base32_canonical` |
+| malformed base62 rejected              | `base62_exact`, `base62_canonical` |
+| malformed netstrings rejected          | `netstring_exact`, `netstring_canonical`, `netstring_split_canonical`, `netstring_split_canonical_trailer` (whole `split_netstring`), `netstring_prefix_free`, `netstring_concat_unique` |
+| malformed URI extension blocks rejected| `ueb_exact` (accepts exactly concatenations of canonical entries with distinct, colon-free, UTF-8 keys and well-typed values — in particular no trailing bytes, no block cut inside an entry), `ueb_canonical_pack` |
+| malformed lease records rejected       | `lease_immutable_exact`, `lease_mutable_exact`, `lease_immutable_canonical`, `lease_mutable_canonical` |
+| malformed share headers rejected       | `immutable_header_canonical` (+ `readImmHeader = none ↔ < 12 bytes`), `mutable_header_canonical`, `mutable_header_rejects_malformed` |
+| constants are the documented ones      | `base32_alphabet_pinned`, `base32_length_tables_pinned`, `base62_alphabet_pinned`, `struct_formats_pinned`, `record_sizes_pinned` |
+
+Where the statement is silent and nothing is claimed: the UEB decoder does not enforce key *order* nor the
+key pattern `[a-zA-Z_\-]+` (`ueb_exact` says precisely what it does enforce); the immutable header's
+second field is documented as unused and is saturated (`immutable_header_saturates`); `struct`'s `Ns`
+fields pad/truncate secrets of the wrong length, which is why every round trip carries the length guard
+(example after `lease_immutable_exact`).  Correspondence only (no theorem): Python's `int()` model
+`pyInt` and the `asIs` decoder variants (kept as documentation of the repaired defects; each has a
+`…_asis_counterexample`), UTF-8 validity `utf8Ok` against `str(key, "utf-8")`, and the `blake2b` hash.
+
+The decoders of the code before the four `fixes/C38-*.diff` repairs (`Netstring.split pyLen`,
+`Base32.a2b 1`, `Base62.a2b`, `Ueb.unpack asIs`) are modelled too; for each leniency a
+`…_asis_counterexample` shows by evaluation the malformed input it accepted, next to the fact that the
+checked decoder rejects the same input.
 -/
 namespace Tahoe.C38
 open Tahoe.Base Tahoe.Base.Bytes Tahoe.Codec
@@ -124,6 +151,34 @@ theorem netstring_split_concat (ss : List Bytes) (tail : Bytes) (h : ss ≠ []) 
       = .ok (ss, ((ss.map Netstring.enc).flatten).length) :=
   Netstring.split_concat ss tail h
 
+/-- **exactness**: one netstring is accepted exactly when the input is its encoding followed by the rest -/
+theorem netstring_exact (x s rest : Bytes) :
+    Netstring.parseOne Netstring.strictLen x = .ok (s, rest) ↔ x = Netstring.enc s ++ rest :=
+  Netstring.parseOne_iff x s rest
+
+/-- **canonicity of the whole `split_netstring`** (no trailer): whatever it accepts is, from `position`
+    on, the concatenation of the encodings of the returned elements; the returned position is just past
+    them; at least `numstrings` elements were read -/
+theorem netstring_split_canonical (data : Bytes) (n p pos : Nat) (els : List Bytes)
+    (h : Netstring.split Netstring.strictLen data n p none = .ok (els, pos)) (hp : p ≤ data.length) :
+    data.drop p = (els.map Netstring.enc).flatten ++ data.drop pos ∧
+      pos = p + ((els.map Netstring.enc).flatten).length ∧ n ≤ els.length :=
+  Netstring.split_canonical_none h hp
+
+example : Netstring.split Netstring.strictLen [120, 49, 58, 97, 44, 48, 58, 44, 121] 2 1 none
+    = .ok ([[97], []], 8) := by decide
+
+/-- … and with `required_trailer`: nothing but the trailer may follow the last element -/
+theorem netstring_split_canonical_trailer (data t : Bytes) (n p pos : Nat) (els : List Bytes)
+    (h : Netstring.split Netstring.strictLen data n p (some t) = .ok (els, pos)) :
+    p ≤ data.length ∧ data.drop p = (els.map Netstring.enc).flatten ++ t ∧ pos = data.length ∧
+      n ≤ els.length :=
+  Netstring.split_canonical_trailer h
+
+example : Netstring.split Netstring.strictLen [49, 58, 97, 44, 122] 1 0 (some [122]) = .ok ([[97]], 5) ∧
+    Netstring.split Netstring.strictLen [49, 58, 97, 44, 122, 122] 1 0 (some [122]) = .error .value :=
+  ⟨by decide, by decide⟩
+
 /-- the decimal length field: printing then strict parsing is the identity, and the strict parser
     accepts only what the printer produces -/
 theorem decimal_roundtrip_and_canonical (n : Nat) (ds : Bytes) :
@@ -154,6 +209,13 @@ theorem base32_canonical (cs os : Bytes) (h : Base32.a2b 0 cs = some os) : Base3
 
 example : Base32.a2b 0 [110, 98, 117, 113] = some [104, 105] := by decide
 
+/-- **exactness**: the corrected decoder accepts exactly the image of the encoder -/
+theorem base32_exact (cs os : Bytes) : Base32.a2b 0 cs = some os ↔ cs = Base32.b2a os :=
+  ⟨fun h => (Base32.b2a_of_a2b h).symm, fun h => h ▸ Base32.a2b_b2a os⟩
+
+-- wrong length class, non-alphabet character, non-zero padding bits: all rejected
+example : Base32.a2b 0 [97] = none ∧ Base32.a2b 0 [97, 65] = none ∧ Base32.a2b 0 [97, 98] = none := by decide
+
 /-- The table `s8` as the code builds it (`4-(bits%5)`, one bit short) lets `a2b(b"ac")` through and
     reads it as `b"\x00"`, whose encoding is `b"aa"`; with `5-(bits%5)`
     (`fixes/C38-base32-trailing-bits.diff`) it is rejected. -/
@@ -174,6 +236,16 @@ theorem base62_canonical (cs os : Bytes) (h : Base62.a2bStrict cs = some os) : B
   Base62.b2a_of_a2bStrict h
 
 example : Base62.a2bStrict [55, 116, 81, 76, 70, 72, 122] = some [104, 101, 108, 108, 111] := by decide
+
+/-- **exactness**: the checked decoder accepts exactly the image of the encoder (no impossible
+    lengths such as 4 characters, no overflowing values, no characters outside the alphabet) -/
+theorem base62_exact (cs os : Bytes) : Base62.a2bStrict cs = some os ↔ cs = Base62.b2a os :=
+  ⟨fun h => (Base62.b2a_of_a2bStrict h).symm, fun h => h ▸ Base62.a2bStrict_b2a os⟩
+
+-- `b"0000"` (impossible length; value fits), `b"zz"` (overflow), `b"0!"`: rejected; `b"000"` is b2a(b"\0\0")
+example : Base62.a2bStrict [48, 48, 48, 48] = none ∧ Base62.a2bStrict [122, 122] = none ∧
+    Base62.a2bStrict [48, 33] = none ∧ Base62.a2bStrict [48, 48, 48] = some [0, 0] :=
+  ⟨by decide, by decide, by decide, by decide⟩
 
 /-- the decoder determines the byte count from the character count -/
 theorem base62_lengths (n : Nat) : Base62.numOctets (Base62.numChars n) = n :=
@@ -210,6 +282,34 @@ theorem ueb_decode_entries (es : Ueb.Dict) (hk : ∀ e ∈ es, Ueb.KeyStrict e.1
     (hnd : (es.map Prod.fst).Nodup) (ht : ∀ e ∈ es, Ueb.Typed e) :
     Ueb.unpack Ueb.strict ((es.map Ueb.packEntry).flatten) = .ok es :=
   Ueb.unpack_entries es hk hnd ht
+
+/-- **exactness of `unpack_extension`** (with the canonical checks): a block is accepted, and read as the
+    entry list `d`, exactly when it is the concatenation of the canonical encodings
+    `key ":" netstring(value)` of the entries of `d` in that order, the keys are distinct, contain no `:`
+    and are valid UTF-8, and integers (canonical decimal) sit exactly under the five integer keys.
+    Hence no trailing bytes, no block cut inside a key, length or value, no duplicate. -/
+theorem ueb_exact (x : Bytes) (d : Ueb.Dict) :
+    Ueb.unpack Ueb.strict x = .ok d ↔
+      (x = (d.map Ueb.packEntry).flatten ∧ (d.map Prod.fst).Nodup ∧ (∀ e ∈ d, Ueb.KeyWire e.1) ∧
+        (∀ e ∈ d, Ueb.Typed e)) :=
+  Ueb.unpack_iff x d
+
+-- `cn:1:x,` is accepted; with a trailing byte, or cut inside the next key / inside the value, it is not
+example : Ueb.unpack Ueb.strict [99, 110, 58, 49, 58, 120, 44] = .ok [([99, 110], .bytes [120])] ∧
+    Ueb.unpack Ueb.strict [99, 110, 58, 49, 58, 120, 44, 120] = .error .value ∧
+    Ueb.unpack Ueb.strict [99, 110, 58, 49, 58, 120, 44, 115, 105] = .error .value ∧
+    Ueb.unpack Ueb.strict [99, 110, 58, 49, 58, 120] = .error .assertion ∧
+    Ueb.unpack Ueb.strict [99, 110] = .error .value :=
+  ⟨by decide, by decide, by decide, by decide, by decide⟩
+
+/-- when the entries were read in key order and the keys match the documented pattern, the block is
+    byte for byte what `pack_extension` produces for the decoded dictionary -/
+theorem ueb_canonical_pack (x : Bytes) (d : Ueb.Dict) (h : Ueb.unpack Ueb.strict x = .ok d)
+    (hs : Ueb.sortDict d = d) (hk : ∀ e ∈ d, Ueb.KeyStrict e.1) : Ueb.pack d = some x :=
+  Ueb.pack_of_unpack h hs hk
+
+example : Ueb.sortDict [([99, 110], Ueb.Val.bytes [120]), ([115], .bytes [])]
+    = [([99, 110], .bytes [120]), ([115], .bytes [])] := by decide
 
 /-- `unpack_extension` as it is (lengths and integer values through `int()`, repeated keys overwrite):
     `size:02:12,` and `size:2: 7,` are read as 12 and 7, `size:1:5,size:1:6,` as 6, and a negative
@@ -251,6 +351,23 @@ theorem lease_immutable_canonical (b : Bytes) :
     (Records.fromImmutable b = none ↔ b.length ≠ 72) :=
   ⟨fun l h => ⟨(Records.toImmutable_fromImmutable b l h).1, (Records.toImmutable_fromImmutable b l h).2.1⟩,
    Records.fromImmutable_none_iff b⟩
+
+/-- **exactness**: the decoder accepts exactly the encodings of in-range leases -/
+theorem lease_immutable_exact (b : Bytes) (l : Records.Lease) :
+    Records.fromImmutable b = some l ↔
+      (Records.toImmutable l = some b ∧ Records.LeaseFits l ∧ l.nodeid = none) :=
+  Records.fromImmutable_iff b l
+
+-- why the guard is there: a 31-byte secret is NUL-padded by the encoder, so the record decodes to a
+-- different lease (the storage protocol only lets 32-byte secrets through)
+example : ∃ b, Records.toImmutable ⟨1, List.replicate 31 7, List.replicate 32 9, 5, none⟩ = some b ∧
+    Records.fromImmutable b = some ⟨1, List.replicate 31 7 ++ [0], List.replicate 32 9, 5, none⟩ :=
+  ⟨_, rfl, by decide⟩
+
+theorem lease_mutable_exact (b : Bytes) (l : Records.Lease) :
+    Records.fromMutable b = some l ↔
+      (Records.toMutable l = some b ∧ Records.LeaseFits l ∧ ∃ nid, l.nodeid = some nid ∧ nid.length = 20) :=
+  Records.fromMutable_iff b l
 
 /-- **decode ∘ encode**, mutable-container lease record (`>LL32s32s20s`) -/
 theorem lease_mutable_decode_encode (l : Records.Lease) (nid : Bytes) (h : Records.LeaseFits l)
@@ -321,24 +438,10 @@ theorem lease_renew_roundtrip_mutable (b : Bytes) (stored : Records.Lease) (e : 
   have hfit' : Records.LeaseFits (Records.renew stored e) := by
     obtain ⟨h1, h2, _, _, h5, h6⟩ := hfit
     exact ⟨h1, h2, he, he2, h5, h6⟩
-  -- the node id read back has 20 bytes
-  cases hn : stored.nodeid with
-  | none => simp [Records.toMutable, hn] at hre
-  | some nid =>
-    have hl : nid.length = 20 := by
-      have hb92 : b.length = 92 := by
-        by_cases h : b.length = 92
-        · exact h
-        · rw [(Records.fromMutable_none_iff b).mpr h] at hdec; simp at hdec
-      simp only [Records.fromMutable, Struct.unpack, hb92, Struct.size, Records.mutLeaseFields,
-        Struct.Field.size, ↓reduceIte, Struct.unpackFields, Struct.unpackField, Option.some.injEq] at hdec
-      subst hdec
-      simp only [Option.some.injEq] at hn
-      subst hn
-      simp; omega
-    obtain ⟨b', hb', _, hd'⟩ := Records.fromMutable_toMutable (Records.renew stored e) nid hfit'
-      (by simp [Records.renew, hn]) hl
-    exact ⟨b', hb', by rw [hd']; simp [Records.renew, hn]⟩
+  obtain ⟨nid, hn, hl⟩ := Records.fromMutable_nodeid hdec
+  obtain ⟨b', hb', _, hd'⟩ := Records.fromMutable_toMutable (Records.renew stored e) nid hfit'
+    (by simp [Records.renew, hn]) hl
+  exact ⟨b', hb', by rw [hd']; rfl⟩
 
 example : Records.renewCycle false
     ((Records.toImmutable ⟨1, List.replicate 32 7, List.replicate 32 9, 5, none⟩).getD []) [6, 7]
@@ -354,6 +457,28 @@ theorem immutable_header_decode_encode (v m : Int) (rest : Bytes) (hv : 0 ≤ v)
     ∃ b, Records.immHeader v m = some b ∧ b.length = 12 ∧
       Records.readImmHeader (b ++ rest) = some (v.toNat, (min 4294967295 m).toNat, 0) :=
   Records.readImmHeader_immHeader v m rest hv hv2 hm
+
+/-- **immutable container, schema versions 1 and 2**: the header is recognised by `is_valid_header` /
+    `schema_from_version` and read back as (version, saturated size, 0 leases), whatever follows -/
+theorem immutable_header_known_versions (v : Nat) (m : Int) (rest : Bytes) (hv : v = 1 ∨ v = 2) (hm : 0 ≤ m) :
+    ∃ b, Records.immHeader v m = some b ∧ b.length = 12 ∧
+      Records.readImmHeader (b ++ rest) = some (v, (min 4294967295 m).toNat, 0) ∧
+      Records.immVersionKnown v = true ∧ Records.immIsValidHeader (b ++ rest) = some true :=
+  Records.immHeader_known_versions v m rest hv hm
+
+example : Records.immIsValidHeader [0, 0, 0, 1] = some true ∧ Records.immIsValidHeader [0, 0, 0, 3] = some false ∧
+    Records.immIsValidHeader [0, 0, 1] = none := by decide
+
+/-- **immutable header canonicity and strictness**: the three values read are exactly the three
+    big-endian words in the first 12 bytes; fewer than 12 bytes are rejected -/
+theorem immutable_header_canonical (file : Bytes) :
+    (∀ v u n, Records.readImmHeader file = some (v, u, n) →
+      Struct.pack Records.immHeaderFields [.int v, .int u, .int n] = some (file.take 12) ∧ 12 ≤ file.length) ∧
+    (Records.readImmHeader file = none ↔ file.length < 12) :=
+  ⟨fun _ _ _ h => ⟨(Records.readImmHeader_canonical h).1, (Records.readImmHeader_canonical h).2.1⟩,
+   Records.readImmHeader_none_iff file⟩
+
+example : Records.readImmHeader [0, 0, 0, 2, 0, 0, 0, 9, 0, 0, 0, 1, 77] = some (2, 9, 1) := by decide
 
 /-- the saturation, on an example: `max_size = 2^32 + 5` is stored as `2^32 - 1` -/
 theorem immutable_header_saturates :
@@ -371,6 +496,29 @@ theorem mutable_header_decode_encode (version : Nat) (nid we : Bytes) (hv : vers
   Records.readMutHeader_mutHeader version nid we hv hn hw
 
 example : (Records.mutHeader 2 (List.replicate 20 1) (List.replicate 32 2)).isSome := by decide
+
+/-- **fixed-offset readers on a fresh mutable container** (`_read_data_length`,
+    `_read_extra_lease_offset`, `_read_num_extra_leases`): 0, 468 and 0, in a 472-byte file -/
+theorem mutable_header_fields (version : Nat) (nid we : Bytes) (hv : version = 1 ∨ version = 2)
+    (hn : nid.length = 20) (hw : we.length = 32) :
+    ∃ file, Records.mutHeader version nid we = some file ∧ file.length = 472 ∧
+      Records.readDataLength file = some 0 ∧ Records.readExtraLeaseOffset file = some 468 ∧
+      Records.readNumExtraLeases file = some 0 :=
+  Records.mutHeader_fields version nid we hv hn hw
+
+/-- **mutable header canonicity**: what is read re-packs to exactly the first 100 bytes of the file, and
+    only the two known magic strings are accepted -/
+theorem mutable_header_canonical (file m n w : Bytes) (dl elo : Nat)
+    (h : Records.readMutHeader file = .ok (m, n, w, dl, elo)) :
+    Struct.pack Records.mutHeaderFields [.bytes m, .bytes n, .bytes w, .int dl, .int elo] = some (file.take 100) ∧
+      100 ≤ file.length ∧ (m = mut_MAGIC_v1 ∨ m = mut_MAGIC_v2) :=
+  Records.readMutHeader_canonical h
+
+-- the hypothesis is met by every freshly written header (`mutable_header_decode_encode`)
+example : ∃ file m n w dl elo, Records.readMutHeader file = .ok (m, n, w, dl, elo) := by
+  obtain ⟨file, magic, _, _, h, _⟩ := Records.readMutHeader_mutHeader 1 (List.replicate 20 1) (List.replicate 32 2)
+    (Or.inl rfl) (by decide) (by decide)
+  exact ⟨file, magic, _, _, _, _, h⟩
 
 /-- a header whose magic is not one of the known ones is rejected, as is a truncated one -/
 theorem mutable_header_rejects_malformed :
